@@ -162,11 +162,6 @@ package devicefinder
 // (length, host-name label) is agd.NewDeviceID's business: validDevID.
 //@ import dns github.com/miekg/dns
 //@ import url net/url
-//@ fun validDevID(s string) bool
-//@ axiom an-identifier-is-not-empty: !validDevID("")
-//@ func agd.NewDeviceID
-//@   modifies nothing
-//@   ensures (err == nil) == validDevID(s) && (err == nil ==> id == s) && (err != nil ==> id == "")
 //@ func newDeviceDataError
 //@   modifies nothing
 //@   ensures err != nil
